@@ -95,6 +95,14 @@ CHECKS = {
    note="Trusted: TLC, handler.identify() as source of the matrix (cross-checked against ctx.identify). Host dependent scheme lists; argon2 has no backend here; "
         "apps.master_context (internal, documented ambiguous, not in __all__) is excluded.",
    technique="TLA+ model extracted from the code (Presets.tla) checked with TLC + replay on the real contexts; Registry.tla model-checked and replayed"),
+ "C20": dict(cat=MC, design="DESIGN.md §3 C20",
+   text="LibpassCtx.tla defines hashing, verification, identification and the update check of the libpass hashers, of the classic hashers of the "
+        "same six formats and of libpass.context.CryptContext over abstract hashes (format, cost, implicit-cost form, password, producer); TLC "
+        "checks interop, identify-own, needs_update and the context laws over all lists of <= 3 formats; simulated 11-step behaviours are replayed on "
+        "the real classes with text/bytes/non-ASCII/72-byte passwords, explicit non-empty salts of every legal size and implicit-rounds strings, "
+        "and each libpass-made hash must also be recognised by the classic hasher of its format.",
+   note="Trusted: TLC, LibpassCtx.tla. bcrypt passwords <= 72 bytes; Argon2Hasher is not importable on this host (no argon2 backend).",
+   technique="TLA+ spec (LibpassCtx.tla) model-checked with TLC + spec-to-implementation behaviour replay across both APIs"),
 }
 PENDING = {}
 props = [json.loads(l) for l in open(os.path.join(HERE, "properties.jsonl"))]
